@@ -242,3 +242,23 @@ PROPS["C09"] = dict(
     min_labels=dict(quick=dict(mutation=30000, mutation_depth_ge2=3000, mixed_string_storage=40000, permutation=15000, chain=10000, src_parsed=8000, src_custom_serializer=5000)),
     assumptions=["member names without NUL (API limit)"],
 )
+
+PROPS["C06"] = dict(
+    harness="C06_object.cpp", level="exploration", config="asanseed",
+    technique="stateful model-based property testing (insertion-ordered map model) at the json_object level (all iteration forms, both string hash functions, pinned hash seeds, colliding/empty/long keys, up to 2000 live keys, deletion during foreach) and at the lh_table level with a harness-controlled hash; exhaustive small scopes over 3 keys on tables of size 1..4",
+    level_text="after every operation of a generated history the length, the lookup of the touched key and (at probes and at the end) every iteration form - both "
+               "foreach macros, the iterator API, PLAIN serialisation read back by the independent parser, json_c_visit - must equal the ordered-map model; "
+               "lh_table histories with a harness hash that forces collisions, wrap-around and tombstones are checked forward and backward after every step; "
+               "all sequences of <=5 (thorough: <=7) operations over 3 keys on tables of size 1..4 under every home-slot assignment are enumerated",
+    level_note="the hash seed is pinned per worker process through the tree's own OVERRIDE_GET_RANDOM_SEED build option (different seeds per worker and per VERIF_SEED); deletion during iteration is exercised with json_object_object_foreach, the form the header documents as safe",
+    rule="operation history on one object / table; non-trivial = the table grew, or an insert followed a delete (probing across a tombstone), or keys were deleted during foreach; distinct by hash of the operation list and hash function",
+    quick=[dict(mode="obj", cases=40000, workers=8, maxbytes=6000),
+           dict(mode="lh", cases=100000, workers=4),
+           dict(mode="lh_small5", enum=True, size=6642900, workers=8)],
+    thorough=[dict(mode="obj", cases=3000000, workers=16, maxbytes=12000),
+              dict(mode="lh", cases=8000000, workers=16),
+              dict(mode="lh_small7", enum=True, size=538083900, workers=16),
+              dict(mode="obj", fuzz=True, secs=240, jobs=8, max_len=2048)],
+    min_labels=dict(quick=dict(many_keys=1000, table_grew=4000, insert_after_delete=20000, delete_during_foreach=5000, constant_key=10000, hash_perllike=8000, hash_default=15000)),
+    assumptions=["member names without NUL (API limit)", "KEY_IS_NEW is only passed when the model says the key is new, CONSTANT_KEY only with storage that outlives the object (the documented preconditions)"],
+)
